@@ -1,6 +1,7 @@
 CONSTANTS
  MaxHot = 1
  MaxLen = 2
+ MaxEntries = 3
  Emit = TRUE
 SPECIFICATION Spec
 INVARIANT HelperSeesExactlySupplied
